@@ -10,6 +10,7 @@ mod oracle;
 mod pexec;
 mod props;
 mod refmodel;
+mod sparse;
 mod structs;
 mod table;
 mod wexec;
